@@ -523,10 +523,28 @@ class Body:
         return switches
 
 
+CURRENT = None
+
+
+def tymatch(path, want):
+    """`path` names the type `want` (a path suffix as the rules spell it): a suffix match, or — when the type was moved to another module —
+    the same last segment, provided the workspace has exactly one struct/enum of that name."""
+    p = (path or "").split("<")[0]
+    if (path or "").endswith(want) or p.endswith(want):
+        return True
+    last = last_seg(want)
+    if last_seg(p) != last or CURRENT is None:
+        return False
+    u = CURRENT.unique_type(last)
+    return u is not None and u == p
+
+
 class Program:
     """All analysed units. Bodies are de-duplicated by def path across the lib and bin builds of one crate."""
 
     def __init__(self, units):
+        global CURRENT
+        CURRENT = self
         self.units = units
         self.bodies = {}
         self.items = []
@@ -604,7 +622,23 @@ class Program:
         return sorted(out, key=lambda b: b.defp)
 
     def item(self, kind, suffix):
-        return [it for it in self.items if it["k"] == kind and it["path"].endswith(suffix)]
+        """items of `kind` whose path ends with `suffix`; if the item was moved to another module (no path match) the unique item of that
+        kind with the same last segment"""
+        out = [it for it in self.items if it["k"] == kind and it["path"].endswith(suffix)]
+        if not out:
+            last = last_seg(suffix)
+            cands = [it for it in self.items if it["k"] == kind and last_seg(it["path"]) == last]
+            if len(cands) == 1:
+                out = cands
+        return out
+
+    def unique_type(self, last):
+        """def path of the only struct/enum of the workspace with this name (None if absent or ambiguous)"""
+        cache = self.__dict__.setdefault("_uniq_ty", {})
+        if last not in cache:
+            cands = {it["path"] for it in self.items if it["k"] in ("struct", "enum") and last_seg(it["path"]) == last}
+            cache[last] = next(iter(cands)) if len(cands) == 1 else None
+        return cache[last]
 
     def flat(self, defp, max_depth=4, stop=None, key=None):
         """flat view of a function (workspace callees spliced in); cached per (defp, depth, key)"""
